@@ -22,7 +22,7 @@ JOBS = {
     "quick": ([("config", s) for s in ("0", "1", "42", "4294967295", "r1", "r2")] + [("history", i) for i in range(4)] +
               [("threads", (2, 0.02, 0)), ("threads", (4, 0.02, 1)), ("threads", (8, 0.01, 2)), ("threads", (2, 0.05, 3)), ("threads", (4, 0.005, 4)), ("threads", (8, 0.02, 5))]),
     "thorough": ([("config", s) for s in ["0", "1", "42", "4294967295"] + [f"r{i}" for i in range(36)]] + [("history", i) for i in range(20)] +
-                 [("threads", (T, p, i)) for i, (T, p) in enumerate([(2, 0.02), (4, 0.02), (8, 0.01), (2, 0.05), (4, 0.005), (8, 0.02)] * 5)]),
+                 [("threads", (T, p, i)) for i, (T, p) in enumerate([(2, 0.02), (4, 0.02), (8, 0.01), (2, 0.05), (4, 0.005), (8, 0.02)] * 5)] + [("bigwrite", 0)]),
 }
 SPEC = {
     "level": "exploration",
@@ -100,6 +100,8 @@ def build_ops(repo, seed):
         add("parse", s); add("norm", s)
         if k % 3 == 0:
             add("write_tucan", s)
+    for s in ("C2H6O/(1-7)(2-7)(3-7)(4-8)(5-8)(6-9)(7-8)(8-9)", "C6/(1-2)(1-3)(2-4)(3-5)(4-6)(5-6)", "H2O/(1-3)(2-3)/(1:mass=2)"):
+        add("write_calc", s)
     bad = ["", "C", "C/", "CH4/(1-2", "HC/", "C2H6/(1-2)(1-9)", "C/(1-1)", "CH4/(1-2)/(1:mass=2,mass=3)", "C1H4/", "Cl2/(1-2)/(3:rad=1)", "c/", "C H/", "CH4/(0-1)",
            "CH4/(1-2)/(1:mass=0)", "Xe/(1-2)", "CH4/(1–2)"]
     for s in bad:
@@ -135,6 +137,21 @@ def run(ctx):
     if ctx.shard == 0:
         ctx.sample({"operation": ops[0]["op"], "input": ops[0]["input"][:300], "fingerprint": table[ops[0]["id"]]})
         ctx.sample({"operation": ops[-1]["op"], "input": ops[-1]["input"][:80], "fingerprint": table[ops[-1]["id"]]})
+    if kind == "bigwrite":
+        # writing a molfile body with calc_coordinates=True for a molecule beyond 500 atoms (costly: ~80 s per write), two fresh processes x two hash seeds
+        n = 501
+        big = [{"id": "0:write_calc", "op": "write_calc", "input": f"C{n}/" + "".join(f"({i}-{i + 1})" for i in range(1, n))}]
+        json.dump(big, open(ops_path, "w"))
+        tables = [runner(ctx, [ops_path, "table"], hs, timeout=3000) for hs in ("0", "0", "12345")]
+        ctx.evaluations += 3
+        ctx.mon("c14_config_compare", 3)
+        ctx.count("cov_calc_coordinates_write_ge_500_atoms")
+        if len({json.dumps(t, sort_keys=True) for t in tables}) > 1:
+            ctx.violation("config:fresh-processes", {"what": "graph_to_molfile(calc_coordinates=True) of one 501-atom molecule differs between processes", "digests": [list(t.values()) for t in tables]},
+                          {"kind": "bigwrite"})
+        for f in (ops_path, table_path):
+            os.path.exists(f) and os.unlink(f)
+        return
     if kind == "config":
         hs = arg if not arg.startswith("r") else str(random.Random(f"{ctx.seed}/{arg}").randrange(1, 2 ** 32))
         t2 = runner(ctx, [ops_path, "table"], hs)
@@ -193,6 +210,15 @@ def post_merge(res, tier, seed, repo, work):
 
 def replay(ctx, w):
     case = w["case"]
+    if case.get("kind") == "bigwrite":
+        ops_path = os.path.abspath("c14_big_ops.json")
+        n = 501
+        json.dump([{"id": "0:write_calc", "op": "write_calc", "input": f"C{n}/" + "".join(f"({i}-{i + 1})" for i in range(1, n))}], open(ops_path, "w"))
+        tables = [runner(ctx, [ops_path, "table"], hs, timeout=3000) for hs in ("0", "12345")]
+        ctx.evaluations += 2
+        if tables[0] != tables[1]:
+            ctx.violation("config:fresh-processes", {"what": "graph_to_molfile(calc_coordinates=True) of one 501-atom molecule differs between processes"}, case)
+        return
     ops = build_ops(ctx.repo, w.get("seed", 0))
     ops_path, table_path = os.path.abspath("c14_ops.json"), os.path.abspath("c14_table.json")
     json.dump(ops, open(ops_path, "w"))
